@@ -62,10 +62,8 @@ def admissible(ctx, s):
             return False
         if len(s.encode('utf-8')) > 200:
             return False
-        # a word of the form NAME=value is an assignment to sh, and a leading
-        # '-' option for neither sh nor make: both are legitimate words
-        if re.match(r'^[A-Za-z_][A-Za-z0-9_]*=', s):
-            return False
+        # (a word of the form NAME=value would be an assignment to sh if left bare, a leading
+        # '-' an option: both are legitimate program names and generated)
     if ctx in ('symlink_src', 'copy_src_desc', 'symlink_gen'):
         # a source file name: one component, nothing the file system refuses.  Characters
         # for which Make itself has no working escape in prerequisites are C04's business
